@@ -20,8 +20,11 @@ CRYSTAL = [[26, 0, 0], [29, 0, 0], [13, 0, 0], [6, 0, 0]]
 
 def gen_mutation(rng, V, tbl, pred, allow_known):
     props = pred.tprops.get(tbl, set())
-    choices = [("_mass", V.atom(rng, "el")), ("_density", V.atom(rng, "el")),
-               ("_abundance", V.atom(rng, "iso")),
+    has_mass = "mass" in props
+    choices = [("_mass", V.atom(rng, "iso" if has_mass and rng.random() < 0.4 else "el")),
+               ("_density", V.atom(rng, "el")), ("_mass_unc", V.atom(rng, "el")),
+               ("_abundance", V.atom(rng, "iso") if has_mass else [1, 2, 0]),
+               ("_abundance_unc", V.atom(rng, "iso") if has_mass else [1, 3, 0]),
                ("covalent_radius", V.atom(rng, "el")), ("covalent_radius_uncertainty", V.atom(rng, "el")),
                ("K_alpha", rng.choice([[29, 0, 0], [28, 0, 0], [42, 0, 0], [1, 0, 0]])),
                ("K_beta1", [29, 0, 0]),
@@ -128,8 +131,14 @@ def gen(seed, V, tier, index, bias=None):
         else:
             pub.append(E.gen_read(rng, V))
 
+    # a late table is created and initialised only after the client phase, i.e. after the
+    # first table has been read, mutated, pickled
+    late = None
+    if len(tables) == 2 and not prefix and rng.random() < 0.4:
+        late = "T2"
+        cfg["late_table"] = late
     # interleave: seeded weighted choice among the open-loop scripts
-    queues = [scripts[t] for t in tables]
+    queues = [scripts[t] for t in tables if t != late]
     if not cfg["public_late"]:
         queues.append(pub)
     merged = list(prefix)
@@ -150,8 +159,19 @@ def gen(seed, V, tier, index, bias=None):
     extra = []
     nextra = rng.choice([2, 4, 8, 12, 20, 28] if thorough else [0, 2, 4, 8, 12])
     msg = 0
-    for _ in range(nextra):
-        t = rng.choice(tables)
+    live_tables = [t for t in tables if t != late]
+    late_at = rng.randrange(nextra // 2, nextra + 1) if late else None
+    for step in range(nextra + (1 if late else 0)):
+        if late and step == late_at:
+            for ev in scripts[late]:
+                f = pred.feed(ev)
+                if f:
+                    fired[f] = fired.get(f, 0) + 1
+                extra.append(ev)
+            live_tables = list(tables)
+            fired["second_table_after_first_modified"] = fired.get("second_table_after_first_modified", 0) + 1
+            continue
+        t = rng.choice(live_tables)
         r = rng.random()
         if fam["mutator"] and r < 0.3:
             ev = gen_mutation(rng, V, t, pred, cfg["allow_known"])
@@ -165,15 +185,15 @@ def gen(seed, V, tier, index, bias=None):
             if cfg["allow_known"] and rng.random() < 0.3:
                 s = rng.choice(FASTA)
             which = rng.random()
-            tt = rng.choice(tables + ["public"])
+            tt = rng.choice(live_tables + ["public"])
             if which < 0.6:
                 ev = ["formula", tt, s, rng.choice(FORMULA_HOW)]
             elif which < 0.75:
                 ev = ["mix", tt, rng.choice(["weight", "volume"]), ["H2O@1", 1, "D2O@1.1", 2]]
             elif which < 0.9:
-                ev = ["change_table", tt, s, rng.choice(tables + ["public"])]
+                ev = ["change_table", tt, s, rng.choice(live_tables + ["public"])]
             else:
-                ev = ["change_atom", tt, V.atom(rng), rng.choice(tables + ["public"])]
+                ev = ["change_atom", tt, V.atom(rng), rng.choice(live_tables + ["public"])]
         elif fam["t_reader"] and r < 0.8:
             if rng.random() < 0.6:
                 ev = E.gen_read(rng, V, tbl=t)
